@@ -70,6 +70,10 @@ func (P *Prog) verifyFuncMode(fn *ssa.Function, thorough bool, mode string) (res
 }
 
 func (P *Prog) verifyFuncOnce(fn *ssa.Function, thorough bool, autoOff map[string]bool, mode string) (res *FuncResult) {
+	// VC generation shares caches of the program (type ids, layouts, class
+	// hierarchy): one function at a time; solving runs in parallel
+	P.genMu.Lock()
+	defer P.genMu.Unlock()
 	key := P.keyOf[fn]
 	spec := P.specs.Funcs[key]
 	res = &FuncResult{Key: key, Fn: fn, Spec: spec, Mode: "bv"}
